@@ -35,7 +35,9 @@ def cases(tier, seed):
         fam = gen.pick(rng, list(CONVEX) * 2 + list(OTHER))
         ps = gen.rand_spec(rng, (fam,), nmax=7, boxes=("mixed", "boxed", "narrow", "narrow_far", "lower", "upper", "boxed_degenerate", "boxed_degenerate", "nonneg", "unit", "zero_mixed"),
                            starts=("face", "vertex", "outward", "interior"), condmax=1e3)
-        yield {"problem": ps, "maxcor": int(rng.integers(1, 9)), "eps": float(gen.pick(rng, [1e-8, 1e-6])),
+        if i % 13 == 12:
+            ps["n"] = int(rng.integers(20, 41))  # scale: stencils of 20 to 40 points per gradient (80 with the central scheme)
+        yield {"problem": ps, "maxcor": int(rng.integers(1, 9)) if ps["n"] < 20 else int(rng.integers(11, 21)), "eps": float(gen.pick(rng, [1e-8, 1e-6])),
                "rel": gen.pick(rng, [None, None, 1e-7]), "maxls": int(gen.pick(rng, [5, 20])),
                "scaler": float(np.exp(rng.uniform(np.log(1e-2), np.log(1e2)))) if i % 4 == 1 else None, "split": int(rng.integers(1, 6)),
                "value_buffer": bool(i % 5 == 2), "nested": bool(i % 6 == 3), "iprint": int(gen.pick(rng, [0, 1, 99, 100, 101])) if i % 3 == 1 else None}
